@@ -34,31 +34,53 @@ def call_many(drv, objs):
 
 # ------------------------------------------------------------------ C16
 
-def mk_range(s, e, form):
-    """the same range [s, e) written in the different accepted forms"""
+def mk_range(s, e, form, label=None):
+    """the same range [s, e) written in the different accepted forms (and with or without a `desc` label)"""
     size = e - s
+    kw = {} if label is None else {"desc": label}
     if form == 1:
-        return AddrRange(start=s, size=size)
+        return AddrRange(start=s, size=size, **kw)
     if form == 2:
-        return AddrRange(base=s, size=size)
+        return AddrRange(base=s, size=size, **kw)
     if form == 3 and s % size == 0:
-        return AddrRange(base=0, size=size, idx=s // size)        # array window
+        return AddrRange(base=0, size=size, idx=s // size, **kw)        # array window
     if form == 4:
-        return AddrRange(start=s, end=e, size=size)
-    return AddrRange(start=s, end=e)
+        return AddrRange(start=s, end=e, size=size, **kw)
+    return AddrRange(start=s, end=e, **kw)
+
+
+# ports 0..3 written as identifiers / coordinates whose Python hashes coincide pairwise (hash(2^61-1) = hash(0),
+# hash(-1) = hash(-2)): compaction groups rules by port in a dictionary
+BIG_IDS = [0, (1 << 61) - 1, 1, (1 << 61)]
+NEG_XS = [-1, -2, 0, 1]
+LABELS = [None, "spm", "regs"]
 
 
 def impl_trim(rules, forms=None, mode=0):
     """mode 0: plain ports; 1: ports as coordinates that differ in `port_id` only; 2: the table is built from the
-    first half of the rules and the rest is appended before `trim()` is called"""
+    first half of the rules and the rest is appended before `trim()` is called; 3: ports as identifiers with
+    coinciding hashes, ranges labelled; 4: ports as coordinates with coinciding hashes"""
     from floogen.model.routing import Coord
 
     def dest(d):
-        return Coord(x=1, y=0, port_id=d) if mode == 1 else SimpleId(id=d)
+        if mode == 1:
+            return Coord(x=1, y=0, port_id=d)
+        if mode == 3 and d < len(BIG_IDS):
+            return SimpleId(id=BIG_IDS[d])
+        if mode == 4 and d < len(NEG_XS):
+            return Coord(x=NEG_XS[d], y=0)
+        return SimpleId(id=d)
 
     def back(o):
-        return o.port_id if mode == 1 else o.id
-    mk = [RouteMapRule(dest=dest(d), addr_range=mk_range(s, e, (forms or [0] * len(rules))[k]))
+        if mode == 1:
+            return o.port_id
+        if mode == 3 and o.id in BIG_IDS:
+            return BIG_IDS.index(o.id)
+        if mode == 4 and isinstance(o, Coord):
+            return NEG_XS.index(o.x)
+        return o.id
+    forms = forms or [0] * len(rules)
+    mk = [RouteMapRule(dest=dest(d), addr_range=mk_range(s, e, forms[k], LABELS[(forms[k] + k) % 3] if mode == 3 else None))
           for k, (d, s, e) in enumerate(rules)]
     if mode == 2 and len(mk) >= 2:
         rm = RouteMap(name="t", rules=mk[:len(mk) // 2])
@@ -141,7 +163,7 @@ class C16Runner:
                 stats["evaluated"] += 1
                 distinct.add(tuple(c))
                 forms = [(stats["evaluated"] + 7 * k) % 5 for k in range(len(c))]
-                mode = stats["evaluated"] % 3
+                mode = stats["evaluated"] % 5
                 try:
                     it = impl_trim(c, forms, mode=mode)
                 except Exception as e:  # pylint: disable=broad-except
@@ -211,6 +233,21 @@ def impl_range(spec, k=None):
     return res, si
 
 
+def impl_range_in_endpoint(spec, array):
+    """the same specification as the address range of an endpoint description (single, or an array): what the
+    description then carries, or None if the endpoint description is refused"""
+    from floogen.model.endpoint import EndpointDesc
+    kw = {"array": [array]} if array else {}
+    try:
+        e = EndpointDesc(name="e", addr_range=dict(spec), sbr_port_protocol=["p"], **kw)
+    except Exception:  # pylint: disable=broad-except
+        return None
+    if len(e.addr_range) != 1:
+        return None
+    r = e.addr_range[0]
+    return [r.start, r.end, r.size, r.base, r.idx]
+
+
 def range_holds(spec, k, ir, isi):
     """C17 on one accepted construction (`ir`) and its re-indexing to k (`isi`)"""
     st, en, sz, ba, ix = ir["ok"]
@@ -271,6 +308,17 @@ class C17Runner:
                     if not good and not rep.violations:
                         f = {"claim": "range-ill-formed", "site": json.dumps(spec), "detail": f"{ir} set_idx({k}) -> {isi}"}
                         rep.finding(f, {"property": pid, "finding": f, "spec": spec, "k": k})
+                    # the same specification written as the range of an endpoint (every other one as an array)
+                    via = impl_range_in_endpoint(spec, 3 if stats["accepted"] % 2 else None)
+                    if via is None:
+                        stats["endpoint-refuses"] += 1
+                    else:
+                        stats["via-endpoint"] += 1
+                        if via != ir["ok"] and not rep.violations:
+                            f = {"claim": "range-changed-in-endpoint", "site": json.dumps(spec),
+                                 "detail": f"AddrRange gives {ir['ok']}, as the range of an endpoint description it is {via}"}
+                            rep.finding(f, {"property": pid, "finding": f, "spec": spec, "k": k,
+                                            "array": 3 if stats["accepted"] % 2 else None})
                 else:
                     stats["rejected"] += 1
                 mr = r["range"]
@@ -298,6 +346,11 @@ class C17Runner:
         ir, isi = impl_range(payload["spec"], payload.get("k"))
         if "ok" in ir and not range_holds(payload["spec"], payload.get("k"), ir, isi):
             rep.finding(payload["finding"], payload)
+        elif "ok" in ir and payload.get("finding", {}).get("claim") == "range-changed-in-endpoint":
+            via = impl_range_in_endpoint(payload["spec"], payload.get("array"))
+            print("in an endpoint description:", via)
+            if via is not None and via != ir["ok"]:
+                rep.finding(payload["finding"], payload)
         return rep.exit_code()
 
 
@@ -308,8 +361,12 @@ def impl_select(kind, dims, sel, arg, nm="r"):
     # other inhabitants of the graph that a selection by name must not pick up
     g.add_nodes_as_tree("q", [1, 2], "router", "link", connect=True)
     g.add_nodes_as_array("zz", (2, 2), "router", edge_type="link", connect=False)
-    if kind == "tree":
-        g.add_nodes_as_tree(nm, dims, "router", "link", connect=True)
+    if kind in ("tree", "tree-scalar"):
+        # through the router description, as create_routers does (`tree: n` is the shorthand of `tree: [n]`)
+        from floogen.model.router import RouterDesc
+        rd = RouterDesc(name=nm, tree=dims[0] if kind == "tree-scalar" else list(dims))
+        g.add_nodes_as_tree(parent=nm, tree=rd.tree, node_type="router", edge_type="link", node_obj=rd,
+                            connect=rd.auto_connect)
     else:
         g.add_nodes_as_array(nm, tuple(dims), "router", edge_type="link", connect=False)
     g.add_nodes_as_tree("w", [2], "router", "link", connect=True)
@@ -340,6 +397,20 @@ def expected_range(dims, rng, nm="r"):
     return out
 
 
+def select_good(dims, sel, arg, nm, ir):
+    """C18 on one selection and what the implementation returned for it"""
+    if sel == "range":
+        exp = expected_range(dims, arg, nm)
+        return (exp is None and "err" in ir) or (exp is not None and ir.get("nodes") == exp)
+    if sel == "idx":
+        inb = len(arg) == len(dims) and all(0 <= i < d for i, d in zip(arg, dims))
+        return (inb and ir.get("nodes") == [nm + "_" + "_".join(map(str, arg))]) or (not inb and "err" in ir)
+    lvl = arg
+    exp = [nm + "_" + "_".join(map(str, t)) for t in itertools.product(*[range(x) for x in dims[:lvl + 1]])] \
+        if lvl < len(dims) else []
+    return ir.get("nodes") == exp
+
+
 class C18Runner:
     def explore(self, pid, tier, seed, rep, search_mode=False):
         import lean
@@ -365,9 +436,14 @@ class C18Runner:
                         cases.append(("array", [m, n], "idx", [i, j]))
         trees = [[a] for a in range(1, 4)] + [[a, b] for a in range(1, 4) for b in range(1, 4)] + \
                 [[a, b, c] for a in range(1, 4) for b in range(1, 4) for c in range(1, 4)]
+        # fan-outs with two-digit child indices (the order of a level is numeric, not lexicographic)
+        trees += [[12], [1, 12], [2, 11]] + ([[1, 3, 11], [11, 2]] if tier == "thorough" else [])
         for t in trees:
             for lvl in range(0, len(t) + 1):
                 cases.append(("tree", t, "lvl", lvl))
+            if len(t) == 1:
+                for lvl in range(0, 3):
+                    cases.append(("tree-scalar", t, "lvl", lvl))
         stats = collections.Counter()
         samples = []
         mism = []
@@ -376,7 +452,8 @@ class C18Runner:
             chunk = cases[off:off + CH]
             reqs = []
             for ci, (kind, dims, sel, arg) in enumerate(chunk):
-                o = {"cmd": "select", "kind": kind, "dims": dims, "sel": sel, "name": NAMES[(off + ci) % 2]}
+                o = {"cmd": "select", "kind": "tree" if kind == "tree-scalar" else kind, "dims": dims, "sel": sel,
+                     "name": NAMES[(off + ci) % 2]}
                 o[{"range": "range", "idx": "idx", "lvl": "lvl"}[sel]] = arg
                 reqs.append(o)
             res = call_many(drv, reqs)
@@ -388,18 +465,7 @@ class C18Runner:
                 ir = impl_select(kind, dims, sel, arg, nm)
                 if "nodes" in ir:
                     stats["returned"] += 1
-                # the property on the implementation
-                if sel == "range":
-                    exp = expected_range(dims, arg, nm)
-                    good = (exp is None and "err" in ir) or (exp is not None and ir.get("nodes") == exp)
-                elif sel == "idx":
-                    inb = len(arg) == len(dims) and all(0 <= i < d for i, d in zip(arg, dims))
-                    good = (inb and ir.get("nodes") == [nm + "_" + "_".join(map(str, arg))]) or (not inb and "err" in ir)
-                else:
-                    lvl = arg
-                    exp = [nm + "_" + "_".join(map(str, t)) for t in itertools.product(*[range(x) for x in dims[:lvl + 1]])] \
-                        if lvl < len(dims) else []
-                    good = ir.get("nodes") == exp
+                good = select_good(dims, sel, arg, nm, ir)
                 if not good and not rep.violations:
                     f = {"claim": "selector-result", "site": f"{kind}{dims} {sel} {arg}", "detail": json.dumps(ir)[:200]}
                     rep.finding(f, {"property": pid, "finding": f, "kind": kind, "dims": dims, "sel": sel, "arg": arg, "name": nm})
@@ -423,8 +489,6 @@ class C18Runner:
         nm = payload.get("name", "r")
         ir = impl_select(payload["kind"], payload["dims"], payload["sel"], payload["arg"], nm)
         print(ir)
-        if payload["sel"] == "range":
-            exp = expected_range(payload["dims"], payload["arg"], nm)
-            if not ((exp is None and "err" in ir) or (exp is not None and ir.get("nodes") == exp)):
-                rep.finding(payload["finding"], payload)
+        if not select_good(payload["dims"], payload["sel"], payload["arg"], nm, ir):
+            rep.finding(payload["finding"], payload)
         return rep.exit_code()
